@@ -78,6 +78,8 @@ def r2_census(rep, repo):
             why = None
             for f in fs:
                 why = why or BODY_FORKS.get((c['file'], c['scope'], f))
+            if not why and fs and all(f in CONFINED and c['file'] in CONFINED[f] for f in fs):
+                why = 'inside the documented switch point of the feature (the module as a whole is compared across configurations by R3 / R3b / R3c)'
             if why:
                 seen_body.add((c['file'], c['scope']))
                 rep.ok(R, key, 'reviewed body-level fork: ' + why, loc)
